@@ -10,7 +10,14 @@ import wikitextprocessor.parserfns as P
 
 
 def op(table, name):
-    return getattr(P, table)[name]
+    """operator implementation from the live tables (by operator name: survives a renaming/merging of the tables)"""
+    for k, v in vars(P).items():
+        if k.endswith("_fns") and isinstance(v, dict) and name in v and (k.startswith("unary") == table.startswith("unary")):
+            return v[name]
+    raise LookupError(name)
+
+
+ALL_OPS = all(any(k.endswith("_fns") and isinstance(v, dict) and n in v for k, v in vars(P).items()) for n in ["mod", "/", "div", "*", "+", "-", "round", "=", "!=", "<>", "<", ">", "<=", ">=", "and", "or", "not", "abs"])
 
 
 def ref_mod(x, y):
